@@ -72,6 +72,14 @@ def check_process_object(ctx, rep):
               {'duplicate_tests': [norm_text(d.stmt.test) for d, _ in dup]},
               "an object specification can be constructed without `if id_ in dic: raise JSONParseError` having been passed: "
               "defining an id twice is silently accepted (the second object replaces or shadows the first)")
+    # P1b the id is still free when the object is registered: the construction may have registered a nested specification with the same id, so a duplicate
+    # test must also lie between the construction and the store (or the id be reserved before the construction)
+    after = [d for d, _ in dup if d.id in cfg.reachable_after(cnode, set())]
+    reserved = any(cfg.dominates(rn, cnode) for rn, _ in register)
+    ok_after = reserved or (bool(register) and all(cfg.must_pass(cnode, rn, after) for rn, _ in register if rn.id in cfg.reachable_after(cnode, set())) and bool(after))
+    rep.check('C13.P', 'process_object::id-still-free-when-registered', ok_after, W, {'tests_after_construction': len(after), 'id_reserved_before': reserved},
+              "between constructing an object and registering it under its id nothing checks that the id is still free: a specification nested inside the object "
+              "that carries the same id was registered in the meantime and is silently replaced (a duplicate id at another nesting depth is accepted)")
     # the call is from_json_safe (error wrapping)
     safe = any(isinstance(n, ast.Call) and isinstance(n.func, ast.Attribute) and n.func.attr == 'from_json_safe'
                for n in own_nodes(cnode.stmt))
@@ -441,6 +449,48 @@ def check_remove_comments(ctx, rep):
               "remove_comments: the branch that keeps a key must recurse into it and the other branch must delete it")
 
 
+def check_expand_plates(ctx, rep):
+    """expand_plates replaces a plate by its objects inside its parent list (callee does the surgery through the (parent, idx) it was handed): the traversal that hands
+    them out must not be a forward enumeration of that same list, and the new objects must be expanded themselves"""
+    m = ctx.prog.module(UTILS)
+    fn = m.functions.get('expand_plates')
+    if fn is None:
+        raise AnalysisError('expand_plates not found')
+    W = where(m, fn)
+    params = [a.arg for a in fn.args.args]
+    if len(params) < 3:
+        raise Unsupported(fn, 'expand_plates(obj, parent, idx) signature expected')
+    obj, parent, idx = params[:3]
+    surgery = [st for st in ast.walk(fn) if (isinstance(st, ast.Delete) and any(isinstance(t, ast.Subscript) and isinstance(t.value, ast.Name) and t.value.id == parent for t in st.targets))
+               or (isinstance(st, ast.Assign) and any(isinstance(t, ast.Subscript) and isinstance(t.value, ast.Name) and t.value.id == parent for t in st.targets))]
+    loops = []
+    for lp in [n for n in ast.walk(fn) if isinstance(n, ast.For)]:
+        calls = [c for c in ast.walk(lp) if isinstance(c, ast.Call) and isinstance(c.func, ast.Name) and c.func.id == fn.name and len(c.args) >= 3
+                 and isinstance(c.args[1], ast.Name) and c.args[1].id == obj and not (isinstance(c.args[2], ast.Constant) and c.args[2].value is None)]
+        if calls:
+            loops.append(lp)
+    if not surgery or not loops:
+        raise Unsupported(fn, 'list surgery / traversal of expand_plates not recognised')
+    bad = []
+    for lp in loops:
+        it = lp.iter
+        txt = ast.unparse(it)
+        backwards = (isinstance(it, ast.Call) and isinstance(it.func, ast.Name) and it.func.id == 'reversed') or \
+            (isinstance(it, ast.Call) and isinstance(it.func, ast.Name) and it.func.id == 'range' and len(it.args) == 3 and isinstance(it.args[2], ast.UnaryOp))
+        if not backwards:
+            bad.append(txt)
+    rep.check('C13.M', 'expand_plates::no-list-surgery-under-forward-enumeration', not bad, W, {'traversals': [ast.unparse(l.iter) for l in loops], 'surgery': [norm_text(s_)[:40] for s_ in surgery]},
+              f"expand_plates enumerates a list forward ({bad[:1]}) while the callee deletes / inserts at the position it was handed: the element after an empty-range plate is "
+              f"skipped and the first object of an expanded plate is never visited, so a plate in that position or nested there survives as an object of type Plate")
+    # the objects that replace a plate are expanded themselves
+    built = [st.targets[0].id for st in ast.walk(fn) if isinstance(st, ast.Assign) and isinstance(st.targets[0], ast.Name) and isinstance(st.value, ast.List) and not st.value.elts]
+    nested = any(isinstance(c, ast.Call) and isinstance(c.func, ast.Name) and c.func.id == fn.name and c.args and isinstance(c.args[0], ast.Name) and c.args[0].id in built + ['clone']
+                 for c in ast.walk(fn))
+    revisit = not bad and False
+    rep.check('C13.M', 'expand_plates::objects-of-a-plate-are-expanded-too', nested or revisit, W, None,
+              "the objects that replace a plate are inserted without being traversed: a plate nested in them is never expanded")
+
+
 def factory_keys(fn: ast.FunctionDef):
     """(may-written keys, type constant, open?) of a json_factory."""
     may: Set[str] = set()
@@ -620,6 +670,10 @@ def run(ctx, rep):
     check_from_json_sites(ctx, rep)
     check_main(ctx, rep)
     check_remove_comments(ctx, rep)
+    try:
+        check_expand_plates(ctx, rep)
+    except Unsupported as u:
+        rep.undecided('C13.M', 'expand_plates', '', str(u))
     check_factories(ctx, rep)
     # a from_json must not change a registered (possibly already shared) object behind the back of its other holders
     from props import c11
